@@ -182,11 +182,11 @@ type ColdCase struct {
 }
 
 var specC17Cold = report.Spec{Property: "C17", Check: "C17Cold", Exhaustive: true,
-	Rule: "a fresh process whose first calls into the package are FromZ on a fixed list of 70 keys (all single bits, alternating patterns, all ones), compared with a bit-by-bit de-interleave reference; only then ToZ(FromZ(z)) == z. Non-trivial: a key with a bit at position >= 32."}
+	Rule: "a fresh process whose first calls into the package are FromZ on a fixed list of 70 keys (all single bits, alternating patterns, all ones), compared with a bit-by-bit de-interleave reference; the process never encodes. Non-trivial: a key with a bit at position >= 32."}
 
 func TestC17Cold(t *testing.T) {
 	report.RunEnum(t, specC17Cold, func(yield func(ColdCase) bool) {
-		keys := []uint64{0, 1, 2, 3, 0xAAAAAAAAAAAAAAAA, 0x5555555555555555, 0xFFFFFFFFFFFFFFFF, 0x00000000FFFFFFFF, 0xFFFFFFFF00000000}
+		keys := []uint64{0xAAAAAAAAAAAAAAAA, 3, 2, 1, 0, 0x5555555555555555, 0xFFFFFFFFFFFFFFFF, 0x00000000FFFFFFFF, 0xFFFFFFFF00000000}
 		for i := uint(0); i < 64; i++ {
 			keys = append(keys, uint64(1)<<i)
 		}
@@ -208,9 +208,6 @@ func TestC17Cold(t *testing.T) {
 			o.Failf([]string{"morton"}, "FromZ(%#x) = (%#x, %#x) as one of the first calls of the process, de-interleaving gives (%#x, %#x)", c.Z, x, y, rx, ry)
 			return o
 		}
-		if z, ok := morton.ToZ(x, y); !ok || uint64(z) != c.Z {
-			o.Failf([]string{"morton"}, "ToZ(FromZ(%#x)) = %#x (ok=%v)", c.Z, z, ok)
-		}
-		return o
+		return o // (no encoding here: every call of this process into the package is a decode)
 	})
 }
